@@ -350,7 +350,8 @@ def _guess_dist(dist, o, kv):
 
 guess_stream = generic_stream(
     "GUESS", "guess", None,
-    lambda pid, acc: acc.startswith("rej"),
+    # C01 only cares about what is accepted (the base case of conformance)
+    lambda pid, acc: (acc in ("rej/model-rejects", "rej/value")) if pid == "C01" else acc.startswith("rej"),
     ("yaml", "guess", "note", "expect", "result"),
     lambda o, kv: o.get("mode") in (0, 1),
     _guess_dist)
@@ -628,7 +629,8 @@ PROPS = {
         "checkers": ["OpsCheck", "RunCheck", "ValsCheck"],
         "streams": [{"kind": "ops", "name": "mixed", "profile": "mixed", "count": {"quick": 320, "thorough": 8000}, "salt": 1},
                     {"kind": "ops", "name": "long", "profile": "long", "count": {"quick": 64, "thorough": 1500}, "salt": 101},
-                    {"kind": "run", "name": "values", "profile": "mixed", "values": True, "count": {"quick": 96, "thorough": 1500}, "salt": 102}],
+                    {"kind": "run", "name": "values", "profile": "mixed", "values": True, "count": {"quick": 96, "thorough": 1500}, "salt": 102},
+                    {"kind": "guess", "name": "guess", "profile": "mixed", "count": {"quick": 480, "thorough": 8000}, "salt": 103}],
         "assumptions": [
             "partial: finiteness of reals without both bounds is a side condition (overflow of the Cauchy sample under an astronomically large adaptive scale); monitored on every observed value",
             "operators are modelled as executable relations (Ops.mut_check / Ops.cross_check) - which outputs are possible for SOME RNG state",
